@@ -346,6 +346,28 @@ static void push_thunk(void* a, int fd) {
   _exit(0);
 }
 
+typedef struct { size_t narena, pstack; int ncon; } AddArg;
+static void addcon_thunk(void* arg, int fd) {
+  AddArg* p = arg;
+  static char out[1 << 14];
+  dup2(fd, 2);
+  mjData* d = unit_data(p->narena, out, sizeof out);
+  if (!d) { wr(fd, out); _exit(0); }
+  d->pstack = p->pstack; d->ncon = p->ncon;
+  d->nefc = 5; d->nisland = 1; d->nJ = 3; d->nY = 7; d->nA = 9;
+  d->parena = (size_t)d->ncon * sizeof(mjContact) + 24;   // something above the contact array
+  mark_all(d);
+  reset_trace();
+  mjContact con; memset(&con, 0, sizeof con); con.dist = -0.25; con.efc_address = 3;
+  int ret = mj_addContact(g_m, d, &con);
+  int copied = (ret == 0) && d->ncon > 0 && d->contact[d->ncon - 1].dist == -0.25;
+  size_t k = snprintf(out, sizeof out, "ret=%d parena=%zu ncon=%d nefc=%d nisland=%d nJYA=%d,%d,%d wC=%d wF=%d copied=%d", ret, d->parena, d->ncon,
+                      d->nefc, d->nisland, d->nJ, d->nY, d->nA, d->warning[mjWARN_CONTACTFULL].number, d->warning[mjWARN_CNSTRFULL].number, copied);
+  print_groups(d, out + k, sizeof out - k);
+  wr(fd, out);
+  _exit(0);
+}
+
 int main(int argc, char** argv) {
   static char line[1 << 20], out[1 << 16];
   setvbuf(stdout, NULL, _IOLBF, 0);
@@ -507,23 +529,13 @@ int main(int argc, char** argv) {
       continue;
     }
     if (!strcmp(op, "addcon") && n == 4) {
-      mjData* d = unit_data(strtoull(tok[1], NULL, 10), out, sizeof out);
+      AddArg a = {strtoull(tok[1], NULL, 10), strtoull(tok[2], NULL, 10), atoi(tok[3])};
+      char st[32];
+      char* rep = in_child(addcon_thunk, &a, st, sizeof st);
       g_m->narena = narena0;
-      if (!d) { puts(out); continue; }
-      d->pstack = strtoull(tok[2], NULL, 10); d->ncon = atoi(tok[3]);
-      d->nefc = 5; d->nisland = 1; d->nJ = 3; d->nY = 7; d->nA = 9;
-      d->parena = (size_t)d->ncon * sizeof(mjContact) + 24;   // something above the contact array
-      mark_all(d);
-      reset_trace();
-      mjContact con; memset(&con, 0, sizeof con); con.dist = -0.25; con.efc_address = 3;
-      int ret = mj_addContact(g_m, d, &con);
-      int copied = (ret == 0) && d->ncon > 0 && d->contact[d->ncon - 1].dist == -0.25;
-      size_t k = snprintf(out, sizeof out, "ret=%d parena=%zu ncon=%d nefc=%d nisland=%d nJYA=%d,%d,%d wC=%d wF=%d copied=%d", ret, d->parena, d->ncon,
-                          d->nefc, d->nisland, d->nJ, d->nY, d->nA, d->warning[mjWARN_CONTACTFULL].number, d->warning[mjWARN_CNSTRFULL].number, copied);
-      print_groups(d, out + k, sizeof out - k);
-      puts(out);
-      d->pstack = 0; d->nefc = d->ncon = d->nisland = 0;
-      mj_deleteData(d);
+      if (strcmp(st, "exit0") || strstr(rep, "Sanitizer") || strstr(rep, "runtime error")) printf("FAULT\n");
+      else printf("%s\n", rep);
+      free(rep);
       continue;
     }
     if (!strcmp(op, "pushpair") && n == 5) {
